@@ -73,12 +73,14 @@ PROPS = {
     },
     "C01": {
         "pkg": "hreader", "test": "TestC01", "level": "exploration",
-        "quick": T(16, 50, timeout=900, fixed=["TestC01_LateConsumer"]), "thorough": T(16, 1500, timeout=7000, fixed=["TestC01_LateConsumer"]),
+        "quick": T(16, 0, timeout=900, fixed=["TestC01_LateConsumer"], tests=[{"test": "TestC01", "checks": 50}, {"test": "TestC01_Repeat", "checks": 20}]),
+        "thorough": T(16, 0, timeout=7000, fixed=["TestC01_LateConsumer"], tests=[{"test": "TestC01", "checks": 1500}, {"test": "TestC01_Repeat", "checks": 600}]),
         "rule": "rapid-generated catalogs (1..3 pchannels per side, 1..3 collections x 1..2 shards on shared pchannels, default + named partition, default/named database, 40% skewed downstream placement, "
                 "3% late partition ids, 3% collections created downstream only by the create event), per-shard scripts of 1..7 packs (BeginTs=0 first packs, 0..3 messages of insert/delete/tick/create*/unsupported, "
                 "equal-timestamp groups, clock skew 0..120 s, message positions nil/pchannel/vchannel) and a drawn interleaving of StartReadCollection/AddPartition/feed actions against the real replicateChannelManager; "
                 "after quiescence (goroutine-dump based) a two-sided oracle: no invention, no duplicate, completeness, source-time order (deletes first on ties), payload proto.Equal modulo the rewritable fields, per-stream pack order "
-                "and attribution (collection, source channel, task). non-trivial = >= 2 streams share a downstream channel with >= 2 data packs, or a registration interleaved after the first feed; distinct = distinct catalog+scripts",
+                "and attribution (collection, source channel, task). TestC01_Repeat adds repeated notifications of a collection to the action sequence (a second StartReadCollection concurrently with the first, or again between two packs): "
+                "both must succeed, no source shard may be subscribed twice, and the same two-sided oracle applies. non-trivial = >= 2 streams share a downstream channel with >= 2 data packs, or a registration interleaved after the first feed; distinct = distinct catalog+scripts+action history",
         "assumptions": ["go-deadlock detector disabled in the harness (pinned goid returns a constant under Go 1.23: toolchain artefact)",
                         "streams that never get a handler (waiting for a free downstream channel) are not fed",
                         "known finding F-C01-forward-overtake: for streams recognised as forwarded the relative order of tick-only vs data packs is not compared (counted)"],
